@@ -89,7 +89,8 @@ def annOf (err : Json) (key : String) : String :=
   | _ => ""
 
 /-- constructor part of a `data_type` annotation such as `Struct(..)` -/
-def ctorOfAnn (s : String) : String := (s.takeWhile (fun c => c.isAlphanum)).toString
+def ctorOfAnn (s : String) : String :=
+  if s.startsWith "<unknown variant>" then "UnknownVariant" else (s.takeWhile (fun c => c.isAlphanum)).toString
 
 /-- → (verdict for C06, signature when failing, tags) -/
 def judge (o : Trace.Options) (j : Json) (raw : List SVal) (items : Bool) (implFields : Option (List Field)) :
@@ -112,8 +113,11 @@ def judge (o : Trace.Options) (j : Json) (raw : List SVal) (items : Bool) (implF
     let ar := (raw.flatMap tupleArities).eraseDups
     let dt0 := ctorOfAnn (annOf err "data_type")
     let mech :=
-      if ar.length > 1 then "tuple-arity-varies"
-      else if o.coerce_numbers && (dt0 == "Float64" || dt0 == "Float32") && raw.any (hasKind "char") then "char-into-float"
+      if dt0 == "UnknownVariant" then "unseen-first-variant-default"
+      else if ar.length > 1 then "tuple-arity-varies"
+      else if o.coerce_numbers && (dt0 == "Float64" || dt0 == "Float32") && raw.any (fun x => x.kind == "char" || hasKind "char" x) then "char-into-float"
+      else if o.enums_without_data_as_strings && dt0 == "Dictionary" && raw.any (fun x => x.kind == "newtype_variant" || hasKind "newtype_variant" x) then
+        "data-less-newtype-variant-as-string"
       else if o.allow_to_string && o.string_dictionary_encoding && dt0 == "Dictionary" then "to-string-into-dictionary"
       else "other"
     -- sample strings that only look like dates (exclusion 2) fail inside the temporal builders
